@@ -13,7 +13,7 @@ from .hmodel import Model, ModelError
 HPROFILES = {
     # weights of op kinds after the initial construction phase
     'C15': {'requires': 5, 'requires_remove': 2, 'cycles': 6, 'job': 2,
-            'chain': 0.12, 'sched': 2, 'add': 1, 'sanitize': 1, 'back_edge': 4},
+            'chain': 0.12, 'remove': 2, 'sched': 2, 'add': 1, 'sanitize': 1, 'back_edge': 4},
     'C16': {'requires': 4, 'dangling': 5, 'sanitize': 5, 'job': 2, 'sched': 2,
             'add': 1, 'remove': 1, 'seq': 1},
     'C17': {'requires': 4, 'requires_remove': 2, 'query': 8, 'job': 2,
